@@ -13,8 +13,8 @@ RULE = ("one case = (method, direction, dense flag, event mix incl. simultaneous
         "direction; non-trivial = >=1 reported event; distinct by (method,direction,dense,event mix,seed)")
 ASSUMPTIONS = ["true roots with |dg/dt| below 5% of the function's scale (tangential) and pairs of true roots closer than the location tolerance are excluded",
                "root location tolerance in t: K*(dy*|s||grad h|/|dg/dt| + max(4eps(1+|t|), ulp(t))) with dy = node error + h^4 max|y''''|/384, K=10"]
-FLOORS = {"quick": {"events_checked": 150, "events_backward": 50, "events_nodense": 50, "steps_with_two_events": 3, "boundary_root_events": 6, "events_on_small_steps": 12, "events_on_tiny_steps": 4, "boundary_root_events_sharing_a_step": 30, "multileg_legs": 40, "multileg_events": 40},
-          "thorough": {"events_checked": 1500, "events_backward": 500, "events_nodense": 500, "steps_with_two_events": 30, "boundary_root_events": 60, "events_on_small_steps": 150, "events_on_tiny_steps": 20, "boundary_root_events_sharing_a_step": 150, "multileg_legs": 200, "multileg_events": 200}}
+FLOORS = {"quick": {"events_checked": 150, "events_backward": 50, "events_nodense": 50, "steps_with_two_events": 3, "boundary_root_events": 6, "events_on_small_steps": 12, "events_on_tiny_steps": 4, "boundary_root_events_sharing_a_step": 30, "multileg_legs": 40, "multileg_events": 40, "events_on_a_call_boundary": 15},
+          "thorough": {"events_checked": 1500, "events_backward": 500, "events_nodense": 500, "steps_with_two_events": 30, "boundary_root_events": 60, "events_on_small_steps": 150, "events_on_tiny_steps": 20, "boundary_root_events_sharing_a_step": 150, "multileg_legs": 200, "multileg_events": 200, "events_on_a_call_boundary": 100}}
 QUICK_METHODS = ["RK45CKSolver", "DOPRI45", "RK4Solver", "EulerSolver", "RK8713MSolver", "ABAs5o6HSolver", "SymplecticEulerSolver",
                  "BackwardEuler", "RadauIIA5", "GaussLegendre4", "MidpointSolver", "RK108Solver"]
 CASE_TIMEOUT = 900
@@ -104,13 +104,23 @@ def _multileg(spec):
                 cuts.append(c)
                 break
     targets = cuts + [tf]
+    if cuts:
+        # one more function whose root sits EXACTLY on the hand-over time of two calls: located as the end of the last step of the first call
+        # and as the start of the first step of the second - it is one crossing
+        es_b = {"kind": "time", "scale": float(10 ** rng.uniform(-2, 2)) * float(rng.choice([-1, 1])), "c": float(cuts[0]), "direction": 0, "terminal": False}
+        evspecs.append(es_b)
+        events.append(Ev(es_b, dim))
+        all_roots.append(true_roots(events[-1], prob, t0, tf)[0])
+    used_all = [set() for _ in events]
+    boundary_ev = events[-1] if cuts else None
     system = sysrun.make_system(lambda t, y, **kw: prob.rhs(t, y), prob.ystar(t0).astype(np.float64), t0, tf, h, info["cls"], dense=spec["dense"], rtol=1e-8, atol=1e-10)
     evlist = list(events)
     ta = t0
     for li, tb in enumerate(targets):
         if li > 0:
             for ev in events:      # attributes are changed on the same function objects between the calls
-                ev.direction = int(rng.choice([-1, 0, 1]))
+                if ev is not boundary_ev:
+                    ev.direction = int(rng.choice([-1, 0, 1]))
             if not spec["same_list"]:
                 evlist = list(events)
         n_ev0 = len(system.events)
@@ -138,10 +148,12 @@ def _multileg(spec):
                 if ev.direction != 0 and (ev.direction > 0) != going_up:
                     continue
                 want.append((tr, gd))
-            used = set()
+            used = used_all[j]      # (across the calls: a crossing reported in an earlier call must not be reported again)
             for te in mine:
                 rec.bump("events_checked")
                 rec.bump("multileg_events")
+                if ev is boundary_ev:
+                    rec.bump("events_on_a_call_boundary")
                 if d < 0:
                     rec.bump("events_backward")
                 if not spec["dense"]:
